@@ -128,8 +128,9 @@ harnesses! {
         core::mem::forget(r);
     }
     // ---- trimming: concrete representative inputs (not a universal claim)
-    fn c19_q_trim_dna_padded [8] { trim_concrete!(Dna, oracle::DNA, b"NNACGNN", 7) }
-    fn c19_q_trim_dna_lower_flanks [8] { trim_concrete!(Dna, oracle::DNA, b"acGTgt", 6) }
+    fn c19_q_trim_dna_padded [8] { trim_concrete!(Dna, oracle::DNA, b"NACNN", 5) }
+    fn c19_q_trim_dna_lower_flanks [6] { trim_concrete!(Dna, oracle::DNA, b"aGt", 3) }
+    fn c19_q_trim_dna_lower_only [6] { trim_concrete!(Dna, oracle::DNA, b"ac", 2) }
     fn c19_q_trim_dna_interior_bad [8] { trim_concrete!(Dna, oracle::DNA, b"xA-Gx", 5) }
     fn c19_q_trim_dna_all_bad [8] { trim_concrete!(Dna, oracle::DNA, b"nx7 ", 4) }
     fn c19_t_trim_iupac_lower_flanks [8] { trim_concrete!(Iupac, oracle::IUPAC, b"nnAC-Nn", 7) }
